@@ -63,6 +63,7 @@ package isobmff
 //@   ensures [C11] r0 > 0 && b.outer != nil ==> old(b.outer.remain) >= n && b.outer.remain == old(b.outer.remain) - n
 //@   ensures [C11] r0 > 0 && b.outer != nil && b.outer.outer != nil ==> old(b.outer.outer.remain) >= n && b.outer.outer.remain == old(b.outer.outer.remain) - n
 //@   ensures wf4(b)
+//@   ensures b.remain <= old(b.remain) && (b.outer != nil ==> b.outer.remain <= old(b.outer.remain) && (b.outer.outer != nil ==> b.outer.outer.remain <= old(b.outer.outer.remain)))
 
 //@ func (*box).close
 //@   props C01 C02 C11
@@ -71,6 +72,7 @@ package isobmff
 //@   ensures [C11] r0 == nil ==> b.remain == 0 && pos(b.reader.br) == old(pos(b.reader.br)) + old(b.remain)
 //@   ensures pos(b.reader.br) >= old(pos(b.reader.br))
 //@   ensures wf4(b)
+//@   ensures b.remain <= old(b.remain) && (b.outer != nil ==> b.outer.remain <= old(b.outer.remain) && (b.outer.outer != nil ==> b.outer.outer.remain <= old(b.outer.outer.remain)))
 
 // remaining lengths along the chain stay non-negative (the part of wfK that a callee can change)
 //@ spec remOK(b) = b.remain >= 0 && (b.outer != nil ==> b.outer.remain >= 0 && (b.outer.outer != nil ==> b.outer.outer.remain >= 0 && (b.outer.outer.outer != nil ==> b.outer.outer.outer.remain >= 0 && (b.outer.outer.outer.outer != nil ==> b.outer.outer.outer.outer.remain >= 0))))
@@ -85,6 +87,7 @@ package isobmff
 //@   ensures [C11] next ==> inner.outer == b && inner.reader == b.reader && inner.remain >= 0 && inner.remain <= int(inner.size)
 //@   ensures [C02 C11] next && err == nil ==> b.remain <= old(b.remain) - 8 && pos(b.reader.br) >= old(pos(b.reader.br)) + 8
 //@   ensures [C11] !next ==> b.remain == old(b.remain) && pos(b.reader.br) == old(pos(b.reader.br))
+//@   ensures b.remain <= old(b.remain) && (b.outer != nil ==> b.outer.remain <= old(b.outer.remain) && (b.outer.outer != nil ==> b.outer.outer.remain <= old(b.outer.outer.remain)))
 
 //@ func (*Reader).readBox
 //@   props C01 C02 C11
@@ -98,18 +101,21 @@ package isobmff
 //@   requires wf4(b)
 //@   modifies stream(b.reader.br), b.remain, b.outer.remain, b.outer.outer.remain, b.outer.outer.outer.remain, b.outer.outer.outer.outer.remain, b.reader.offset
 //@   ensures remOK(b) && pos(b.reader.br) >= old(pos(b.reader.br)) && b.remain <= old(b.remain)
+//@   ensures b.remain <= old(b.remain) && (b.outer != nil ==> b.outer.remain <= old(b.outer.remain) && (b.outer.outer != nil ==> b.outer.outer.remain <= old(b.outer.outer.remain)))
 
 //@ func (*box).readUUID
 //@   props C01 C02 C11
 //@   requires wf4(b)
 //@   modifies stream(b.reader.br), b.remain, b.outer.remain, b.outer.outer.remain, b.outer.outer.outer.remain, b.outer.outer.outer.outer.remain, b.reader.offset
 //@   ensures remOK(b) && pos(b.reader.br) >= old(pos(b.reader.br)) && b.remain <= old(b.remain)
+//@   ensures b.remain <= old(b.remain) && (b.outer != nil ==> b.outer.remain <= old(b.outer.remain) && (b.outer.outer != nil ==> b.outer.outer.remain <= old(b.outer.outer.remain)))
 
 //@ func (*box).readFlags
 //@   props C01 C02 C11
 //@   requires wf4(b)
 //@   modifies stream(b.reader.br), b.remain, b.outer.remain, b.outer.outer.remain, b.outer.outer.outer.remain, b.outer.outer.outer.outer.remain, b.reader.offset, b.flags
 //@   ensures remOK(b) && pos(b.reader.br) >= old(pos(b.reader.br)) && b.remain <= old(b.remain)
+//@   ensures b.remain <= old(b.remain) && (b.outer != nil ==> b.outer.remain <= old(b.outer.remain) && (b.outer.outer != nil ==> b.outer.outer.remain <= old(b.outer.outer.remain)))
 
 //@ func (*box).readFlagsFromBuf
 //@   props C01
